@@ -778,6 +778,10 @@ func superviseWorker(bin, variant, tier string, i, n int, budget time.Duration) 
 			args = append(args, "--skip", strings.Join(parts, ","))
 		}
 		cmd := exec.Command(bin, args...)
+		if strings.HasPrefix(variant, "race") {
+			logBase := filepath.Join(os.Getenv("VERIF_SCRATCH"), fmt.Sprintf("racelog-%d", i))
+			cmd.Env = append(os.Environ(), "GORACE=log_path="+logBase+" halt_on_error=0", "VERIF_RACE_LOG="+logBase)
+		}
 		var stderr bytes.Buffer
 		cmd.Stderr = &limitedWriter{w: &stderr, n: 1 << 20}
 		stdout, _ := cmd.StdoutPipe()
